@@ -276,7 +276,7 @@ def main(ctx):
     threads = []
     if ok:
         def audit_props():
-            ctx.stats["theorems_props"] = ctx.audit("GojaModel.C15.Props", expect_min=36)
+            ctx.stats["theorems_props"] = ctx.audit("GojaModel.C15.Props", expect_min=41)
         def audit_tie():
             ctx.stats["theorems_tie"] = ctx.audit("GojaModel.C15.Tie", expect_min=18)
         threads = [threading.Thread(target=audit_props), threading.Thread(target=audit_tie)]
